@@ -123,6 +123,52 @@ def play(ops):
     return coq, outs, reg, viol
 
 
+def concurrent_probe(n_before, n_during):
+    """A second thread creates workers while active_children() is polling is_alive():
+    whatever the interleaving, the next query must yield every live worker."""
+    h = History()
+    created = []
+    fired = []
+
+    class Gate(h.TW):
+        def is_alive(self):
+            r = super().is_alive()
+            if threading.current_thread() is main and not fired and getattr(self, '_gate_armed', False):
+                fired.append(1)
+
+                def make():
+                    for _ in range(n_during):
+                        ev = threading.Event()
+                        created.append((h.TW(target=ev.wait), ev))
+                t = threading.Thread(target=make)
+                t.start()
+                t.join(0.3)     # with the lock held by the caller this times out: fine
+                threads.append(t)
+            return r
+    main = threading.current_thread()
+    threads = []
+    viol = []
+    try:
+        evs = []
+        for _ in range(n_before):
+            ev = threading.Event(); evs.append(ev)
+            w = Gate(target=ev.wait)
+            h.objs.append((w, ev, False))
+        h.objs[0][0]._gate_armed = True
+        first = list(h.Worker.active_children())
+        for t in threads:
+            t.join(10)
+        for w, ev in created:
+            h.objs.append((w, ev, False))
+        second = h.active()
+        alive = h.alive_set()
+        if sorted(second) != alive or len(set(second)) != len(second):
+            viol.append(f'after workers were created concurrently with a query, active_children() yields {second}, live workers are {alive}')
+    finally:
+        h.cleanup()
+    return viol
+
+
 def gen_random(rnd, length):
     ops, n = [], 0
     for _ in range(length):
@@ -190,6 +236,12 @@ def main(tier, seed, replay=None):
             res.violation(dict(ops=[list(o) for o in ops]), v, observed=outs)
         terms.append(f'check_hist [{"; ".join(coq)}] [{"; ".join("[" + "; ".join(map(str, o)) + "]" for o in outs)}] [{"; ".join(map(str, reg))}]')
         keep.append((ops, outs, reg))
+    for nb, nd in ([1, 1], [2, 1], [3, 2]) if tier == 'quick' else [(a, b) for a in range(1, 5) for b in range(1, 4)]:
+        viol = concurrent_probe(nb, nd)
+        res.count('kind:concurrent')
+        res.case(('concurrent', nb, nd), nontrivial=True)
+        for v in viol[:1]:
+            res.violation(dict(concurrent=dict(workers_before=nb, created_during_query=nd), ops=[]), v)
     if gen_ok:
         bad, err = core.coq_eval_cases(PROP, HEADER, terms, per_file=300)
         res.traces_validated = len(terms) - len(bad)
